@@ -205,11 +205,14 @@ class Reader(object):
 
             if blk_type == dpng.PCAPNG_BT_EPB:
                 epb = dpng.EnhancedPacketBlockLE(buf) if self.__le else dpng.EnhancedPacketBlock(buf)
-                ts = self._tsoffset + (((epb.ts_high << 32) | epb.ts_low) / self._divisor)
+                # whole seconds and sub-second part separately: a float cannot hold a nanosecond tick count (> 2^53) exactly
+                ticks = (epb.ts_high << 32) | epb.ts_low
+                ts = self._tsoffset + ticks // int(self._divisor) + (ticks % int(self._divisor)) / self._divisor
                 yield ts, epb.pkt_data
             elif blk_type == dpng.PCAPNG_BT_PB:
                 pb = dpng.PacketBlockLE(buf) if self.__le else dpng.PacketBlock(buf)
-                ts = self._tsoffset + (((pb.ts_high << 32) | pb.ts_low) / self._divisor)
+                ticks = (pb.ts_high << 32) | pb.ts_low
+                ts = self._tsoffset + ticks // int(self._divisor) + (ticks % int(self._divisor)) / self._divisor
                 yield ts, pb.pkt_data
             elif blk_type == PCAPNG_BT_DSB:
                 dsb = DecryptionSecretBlockLE(buf) if self.__le else DecryptionSecretBlock(buf)
